@@ -126,7 +126,7 @@ func NewWriter(writerOptions ...WriterOption) (WriterI, error) {
 		recordio.CompressionType(opts.compressionType),
 		recordio.BufferSizeBytes(opts.bufSizeBytes))
 	if err != nil {
-		return nil, err
+		return nil, errors.Join(err, opts.file.Close())
 	}
 
 	return &Writer{writer: writer}, nil
